@@ -46,6 +46,17 @@ static void do_pair(const std::vector<long long> &a, const std::vector<long long
 	ev.raw("from_cstr", jarr(bytes(fc.data(), fc.size()))).raw("from_view", jarr(bytes(fv.data(), fv.size()))).raw("copy", jarr(bytes(cp.data(), cp.size())))
 	  .raw("assigned", jarr(bytes(asg.data(), asg.size()))).raw("view_back", jarr(bytes(back.data(), back.size())))
 	  .i("term", term_ok(sa) & term_ok(fc) & term_ok(fv) & term_ok(cp) & term_ok(asg)).i("view_cstr_len", (long long)V((const char *)ca).size());
+	{	// fill constructor, indexing through string and view, iteration through begin()/end(), const access
+		S fill(a.size(), 'b');
+		const S &csa = sa;
+		std::vector<long long> idx_s, idx_v, it, cit;
+		for(size_t i = 0; i < sa.size(); i++) { idx_s.push_back((unsigned char)sa[i]); idx_v.push_back((unsigned char)va[i]); }
+		for(char *q = sa.begin(); q != sa.end(); ++q) it.push_back((unsigned char)*q);
+		for(const char *q = csa.begin(); q != csa.end(); ++q) cit.push_back((unsigned char)*q);
+		ev.raw("fill", jarr(bytes(fill.data(), fill.size()))).raw("index_str", jarr(idx_s)).raw("index_view", jarr(idx_v))
+		  .raw("iter", jarr(it)).raw("citer", jarr(cit)).i("sizes", (long long)(sa.size() * 100 + va.size()))
+		  .i("empties", (sa.empty() ? 1 : 0) + (S().empty() ? 2 : 0)).i("term3", term_ok(fill) & term_ok(csa));
+	}
 	S cat = sa + vb; S catc = sa + 'a'; S app(sa); app += vb;
 	ev.raw("plus", jarr(bytes(cat.data(), cat.size()))).raw("plus_char", jarr(bytes(catc.data(), catc.size()))).raw("append", jarr(bytes(app.data(), app.size())))
 	  .i("term2", term_ok(cat) & term_ok(catc) & term_ok(app));
